@@ -30,7 +30,7 @@ func init() {
 func runC12(c *Ctx) {
 	r := c.R
 	r.Rule("R12-poll", "every recursive search function polls for cancellation before doing anything else and does nothing on the cancelled path; each public Search returns ErrHalted (never a score) when the context is cancelled at exit", 3+2)
-	r.Rule("R12-balance", "push/pop balance on all paths, including the cancelled ones (same rule as R03-balance)", 4)
+	r.Rule("R12-balance", "the board is handed back as received: push/pop balance on all paths, including the cancelled ones, and the mate/stalemate verdict (which writes the game result) only where no move was pushed", 7)
 	r.Rule("R12-nowrite", "on every path from a child evaluation to a transposition-table write there is a cancellation poll whose not-cancelled edge is taken: a halted search never stores a value computed from a cut-short child", 2)
 	r.Rule("R12-bound", "the interior table write happens with an exact bound only on paths on which the move loop ran to exhaustion", 1)
 	r.Rule("R12-quit", "Halt closes the quit channel; the controller derives the search context from it and passes that context to the root search; nested searches forward the same context", 3)
@@ -45,6 +45,13 @@ func runC12(c *Ctx) {
 		m.children[f] = true
 	}
 	c.guard("R12-balance", func() { c03BalanceRule(c, m, "R12-balance") })
+	// ... and the game result is not touched on the way out: the mate/stalemate verdict (which writes the
+	// board's result) is produced only on paths where no move was pushed (rule of C03, re-decided here)
+	c.guard("R12-balance", func() {
+		r.WithAlias("R03-negamax", "-", func() {
+			r.WithAlias("R03-terminal", "R12-balance", func() { c03Paths(c, m) })
+		})
+	})
 	c.guard("R12-poll", func() { c12Paths(c, m, rec) })
 	c.guard("R12-quit", func() { c12Quit(c, m) })
 }
